@@ -119,7 +119,12 @@ async def script(loop, ctx):
                 else:
                     cur = await observe_inbox(o)
                     if cur:
-                        vu = rnd.choice(cur)[0]
+                        # often one of the messages the POP3 session has marked (QUIT must still remove the other marked ones)
+                        live = {c[0] for c in cur}
+                        marked_uids = [t[1] for t in table if t[0] in marks and t[1] in live]
+                        vu = rnd.choice(marked_uids) if marked_uids and rnd.random() < 0.6 else rnd.choice(cur)[0]
+                        if vu in marked_uids:
+                            counts["imap_expunged_a_marked_message"] += 1
                         await a.cmd(f"UID STORE {vu} +FLAGS.SILENT (\\Deleted)")
                         await a.cmd("EXPUNGE")
                         gone_uids.add(vu)
